@@ -64,6 +64,16 @@ def shape(with_delta):
     return sh
 
 
+def shape_twice(B):
+    from vf.props import shapes as S
+    res = shapes.resolver(B)
+    d1, d2 = B.int("d1"), B.int("d2")
+    S.root_symbols(B, res, {"k": d1})
+    content = b"PATCH" + bytes([0x00, 0x12, 0x34, 0x00, 0x02, 0xAA, 0xBB]) + b"EOF"
+    node = B.inst("a816.parse.ast.nodes.IncludeIpsAstNode", kind="include_ips", file_info=S.tok(B, "KEYWORD", "include_ips"), file_path="patch.ips", expression=S.expr_ident(B, "k"))
+    return {"node": node, "resolver": res, "tok": S.tok(B, "KEYWORD", "include_ips"), "path": "patch.ips", "content": content, "offset": 0x1234, "d1": d1, "d2": d2}
+
+
 def shape_node(B):
     res = shapes.resolver(B)
     node = B.inst("a816.parse.nodes.IncludeIpsNode", ips_file_path="p.ips", delta=B.int("delta"), blocks=B.list([]))
@@ -77,6 +87,8 @@ def cases(E):
         cs.append(Case(H + "include_ips_exact_contract", f"0/1 record, delta={'symbolic' if wd else 'absent'}", shape(wd), target=[N + "__init__"], no_loop_specs=True, overrides=OPEN))
         cs.append(Case(H + "include_ips_any_contract", f"any records, delta={'symbolic' if wd else 'absent'}", shape(wd), target=[N + "__init__"], overrides=OPEN))
     cs.append(Case(H + "include_ips_neutral_contract", "any", shape_node, target=[N + "emit", N + "pc_after"]))
+    cs.append(Case(H + "include_ips_per_expansion_contract", "the same directive expanded twice with different deltas", shape_twice, target=["a816.parse.codegen.generate_include_ips", N + "__init__"],
+                   no_loop_specs=True, overrides=OPEN, drop_overrides=["a816.parse.ast.expression.eval_expression"]))
     return cs
 
 
